@@ -353,6 +353,18 @@ def scenarios(tmp, rnd, stats, violations, tier):
         bad("C17", case, "pages of 'beta' differ when 'alpha' is documented before it in the same run")
     if sb.get("lone.rst") != sl.get("lone.rst"):
         bad("C17", case, "page of a lone file differs when directories are documented before it")
+    # C12: the default prefix is the name of the page's OWN input directory; a lone file is named by its base name only
+
+    def title_of(path):
+        try:
+            return open(path).read().split("\n")[2]
+        except (OSError, IndexError):
+            return None
+    for page, want_title in ((os.path.join(beta_last, "one.rst"), "beta.one"),
+                             (os.path.join(beta_last, "sub", "two.rst"), "beta.sub/two"),
+                             (os.path.join(both, "lone.rst"), "lone")):
+        if title_of(page) != want_title:
+            bad("C12", case, {"page": os.path.relpath(page, tmp), "title": title_of(page), "want": want_title})
     n += 1
     # --- S2 (C17): hash seeds with an order-sensitive (negated) pattern set
     s2 = os.path.join(tmp, "s2", "proj")
